@@ -12,6 +12,7 @@ fn main() {
         "C30" => e2_handler::c30(&args),
         "C32" => e2_handler::c32(&args),
         "C29" => e2_handler::c29(&args),
+        "C33" => e2_handler::c33(&args),
         "C12" => e2_store::c12(&args),
         "C14" => e2_store::c14(&args),
         other => {
